@@ -100,6 +100,7 @@ type Plan struct {
 	Faults   []sched.Fault `json:"faults,omitempty"`
 	Tape     []uint32      `json:"tape,omitempty"`
 	Order    []int         `json:"order,omitempty"` // C19: turn order over tasks
+	Lazy     bool          `json:"lazy_drain,omitempty"` // goroutines left behind by a call keep running during later calls
 }
 
 func (p *Plan) JSON() []byte {
